@@ -55,7 +55,7 @@ Definition dec_tbl (decin : stream) (t : list (N * dres)) (c : codec) (s : strea
 
 Inductive vcase :=
 (* end-to-end, full bytes *)
-| EC (type : string) (level : Z) (hdr : option string) (ce raw : list string) (body : option bytes) (chunked rerr cerr : bool)
+| EC (type : string) (level : Z) (hdr : option string) (ce raw : list string) (body : option bytes) (reads : N) (chunked rerr cerr : bool)
      (max : Z) (algs : option (list string)) (custom : list (string * option N)) (mw : nat)
      (enc : list ((N * Z) * bytes)) (decin : stream) (dect : list (N * dres))
      (* observed: client (0 sent / 1 configuration refused / 2 RoundTrip error, nothing sent); wire
@@ -102,16 +102,16 @@ Definition ldec_tbl (t : list (N * ldres)) (c : codec) : ldres :=
 (* the model's answer for a case: the wire request (None = configuration refused) and the outcome *)
 Definition model_wire (c : vcase) : cres :=
   match c with
-  | EC type level hdr ce raw body chunked rerr cerr _ _ _ _ enc _ _ _ _ _ _ _ _ _ _ _ _ _ _ =>
+  | EC type level hdr ce raw body reads chunked rerr cerr _ _ _ _ enc _ _ _ _ _ _ _ _ _ _ _ _ _ _ =>
       client (enc_tbl (body_bytes body) enc) {| c_type := type; c_level := level; c_hdr := hdr |}
-             {| q_ce := ce; q_body := body; q_raw := raw; q_stream := chunked; q_rerr := rerr; q_cerr := cerr |}
+             {| q_ce := ce; q_body := body; q_raw := raw; q_stream := chunked; q_reads := reads; q_rerr := rerr; q_cerr := cerr |}
   | LC _ _ _ _ _ _ _ _ _ _ _ _ _ => CRefused
   end.
 
 (* (client outcome, wire) , server observable *)
 Definition model_out (c : vcase) : (N * option (list string * bytes * Z * option bytes)) * (obs + lobs) :=
   match c with
-  | EC type level hdr ce raw body chunked rerr cerr max algs custom mw enc decin dect _ _ _ _ _ _ _ _ _ _ _ _ =>
+  | EC type level hdr ce raw body reads chunked rerr cerr max algs custom mw enc decin dect _ _ _ _ _ _ _ _ _ _ _ _ =>
       let sc := {| s_max := max; s_algs := algs; s_custom := custom; s_mw := mw |} in
       match model_wire c with
       | CRefused => ((1%N, None), inl (obs_of Panicked))
@@ -126,7 +126,7 @@ Definition model_out (c : vcase) : (N * option (list string * bytes * Z * option
 (* the handlers behind the decompressor, in the order they run, with what each is given *)
 Definition model_views (c : vcase) : list (N * view) :=
   match c with
-  | EC type level hdr ce raw body chunked rerr cerr max algs custom mw enc decin dect _ _ _ _ _ _ _ _ _ _ _ _ =>
+  | EC type level hdr ce raw body reads chunked rerr cerr max algs custom mw enc decin dect _ _ _ _ _ _ _ _ _ _ _ _ =>
       let sc := {| s_max := max; s_algs := algs; s_custom := custom; s_mw := mw |} in
       match model_wire c with
       | CSent w => server_views (dec_tbl decin dect) cdec_fixed sc w
@@ -142,7 +142,7 @@ Definition view_eqb (a b : N * view) : bool :=
 
 Definition check_case (c : vcase) : bool :=
   match c with
-  | EC _ _ _ _ _ _ _ _ _ _ _ _ _ _ _ _ o_client o_wce o_wbody o_wcl o_wrw o_kind o_status o_hce o_cl o_data o_err o_views =>
+  | EC _ _ _ _ _ _ _ _ _ _ _ _ _ _ _ _ _ o_client o_wce o_wbody o_wcl o_wrw o_kind o_status o_hce o_cl o_data o_err o_views =>
       match model_out c with
       | ((k, None), _) => N.eqb k o_client && negb (N.eqb o_client 0)
       | ((k, Some (wce, wbody, wcl, wrw)), inl o) =>
